@@ -54,6 +54,7 @@ PURE_EXTERNALS = {
     'super', 'callable', 'format', 'pow', 'abs', 'reversed', 'next', 'takewhile',
     'islice', 'join', 'keys', 'values', 'items', 'copy', 'get', 'index', 'count',
     'upper', 'lower', 'startswith', 'endswith', 'split', 'rpartition',
+    'getcoroutinestate', 'getgeneratorstate',
 }
 
 
@@ -683,8 +684,13 @@ class Interp:
 
     def _store(self, target, value, st, fr, stmt, aug=None):
         if isinstance(target, (ast.Tuple, ast.List)):
-            for elt in target.elts:
-                self._store(elt, None, st, fr, stmt, aug)
+            parts = [None] * len(target.elts)
+            if isinstance(value, (ast.Tuple, ast.List)) and \
+                    len(value.elts) == len(target.elts) and not any(
+                    isinstance(e, ast.Starred) for e in list(value.elts) + list(target.elts)):
+                parts = list(value.elts)  # a, b = x, y
+            for elt, part in zip(target.elts, parts):
+                self._store(elt, part, st, fr, stmt, aug)
             return
         if isinstance(target, ast.Starred):
             return self._store(target.value, None, st, fr, stmt, aug)
@@ -1558,8 +1564,13 @@ class Interp:
         if not (is_self or is_super):
             return False
         args = callee.fn.node.args.posonlyargs + callee.fn.node.args.args
-        cargs = fr.fn.node.args.posonlyargs + fr.fn.node.args.args \
-            if not isinstance(fr.fn.node, ast.Lambda) else []
+        # the caller's `self`: its own first parameter, or that of the enclosing method
+        method = fr.fn
+        while method is not None and method.cls is None and method.parent is not None:
+            method = method.parent
+        cargs = []
+        if method is not None and not isinstance(method.node, ast.Lambda):
+            cargs = method.node.args.posonlyargs + method.node.args.args
         return bool(args) and args[0].arg == 'self' and bool(cargs) and \
             cargs[0].arg == 'self'
 
